@@ -73,6 +73,8 @@ MARKUP_CFGS = [
     ('text-url-str', {'text': 'http://emmet.io [1]', 'options': {'markup.href': True}}),
     ('text-url-reverse', {'text': 'www.emmet.io', 'options': {'output.reverseAttributes': True}}),
     ('text-url-user-a', {'text': ['a@b.c', 'http://x.y'], 'snippets': {'a': 'a.x[title]', 'vs': 'x-v>a'}}),
+    ('bem-ctx-loose', {'options': dict(BEM), 'context': {'name': 'div', 'attributes': None}}),
+    ('ctx-nameless', {'context': {'attributes': {'class': 'blk'}}, 'options': dict(BEM)}),
     ('strict-callbacks', {'options': dict(STRICT)}),
     ('strict-callbacks-pug', {'syntax': 'pug', 'options': dict(STRICT, **CMT), 'snippets': USER_MARKUP_SNIPPETS}),
 ]
@@ -91,12 +93,14 @@ CSS_CFGS = [
     ('noskip', {'type': 'stylesheet', 'options': {'stylesheet.skipUnmatched': False}}),
     ('minscore', {'type': 'stylesheet', 'options': {'stylesheet.fuzzySearchMinScore': 0.5}}),
     ('user-snippets', {'type': 'stylesheet', 'snippets': USER_CSS_SNIPPETS, 'cache': {}}),
+    ('ctx-nameless', {'type': 'stylesheet', 'context': {'attributes': {}}}),
+    ('ctx-name-none', {'type': 'stylesheet', 'context': {'name': None}}),
     ('strict-callbacks', {'type': 'stylesheet', 'options': dict(STRICT), 'snippets': USER_CSS_SNIPPETS}),
     ('sloppy-user-snippets', {'type': 'stylesheet', 'snippets': SLOPPY_CSS_SNIPPETS}),
 ]
 # syntax names must be complete: every known syntax appears in at least one configuration
-ENUM_MARKUP = ['text-url', 'html', 'jsx', 'text-list', 'text-str', 'text-empty', 'bem-ctx', 'comment', 'pug', 'haml', 'xsl', 'vue', 'novars', 'max1']
-ENUM_CSS = ['css', 'stylus', 'value-ctx', 'section-ctx', 'json', 'noskip', 'user-snippets', 'strict-callbacks']
+ENUM_MARKUP = ['bem-ctx-loose', 'text-url', 'html', 'jsx', 'text-list', 'text-str', 'text-empty', 'bem-ctx', 'comment', 'pug', 'haml', 'xsl', 'vue', 'novars', 'max1']
+ENUM_CSS = ['ctx-nameless', 'css', 'stylus', 'value-ctx', 'section-ctx', 'json', 'noskip', 'user-snippets', 'strict-callbacks']
 
 
 def describe(tier):
